@@ -58,492 +58,498 @@ def run(eng, R):
                       "free parameters; parameter values are stored as floats; the final values are written back to the graph", 10)
 
     # ------------------------------------------------------------------ F5
-    df = get_func(p, "FitBase", "do_fit")  # canonical: a refit block moved into a private helper is written out
-    g = eng.cfg(df)
-    pre, post, fit, reset, ref = [], [], [], [], []
-    for n in g.nodes:
-        for c in _calls_in(n):
-            if _self_call(c, "_pre_fit_iteration"):
-                pre.append((n, c))
-            elif _self_call(c, "_post_fit_iteration"):
-                post.append((n, c))
-            elif _fitter_call(c, "do_fit"):
-                fit.append((n, c))
-            elif _fitter_call(c, "reset_minimizer"):
-                reset.append((n, c))
-            elif _self_call(c, "_set_data_as_model_ref"):
-                ref.append((n, c))
-    if not fit or not pre or not post:
-        raise AnalysisError("FitBase.do_fit: minimiser runs / pre / post iteration calls not found")
-    where = (df.file, df.lineno)
-    fit_ids = {n.id for n, _ in fit}
-    pre_ids = {n.id for n, _ in pre}
-    post_ids = {n.id for n, _ in post}
-    reset_ids = {n.id for n, _ in reset}
-    ref_ids = {n.id for n, _ in ref}
-    # `self._post_fit_iteration(self._fitter.do_fit(), ...)`: the run is an argument of its own post call (one statement)
-    post_same = {n.id: c for n, c in post if any(_fitter_call(x, "do_fit") for a in list(c.args) + [k.value for k in c.keywords] for x in ast.walk(a) if isinstance(x, ast.Call))}
-    # the first minimiser run: reachable from entry without passing another run
-    first = [n for n, _ in fit if g.find_path(g.entry.id, lambda m, n=n: m.id == n.id, exceptional=False, avoid=lambda m, n=n: m.id in fit_ids and m.id != n.id, strict=False)]
-    later = [n for n, _ in fit if any(g.find_path(o.id, lambda m, n=n: m.id == n.id, exceptional=False) for o, _ in fit)]
-    for n in first:
-        ok, _ = g.dominated_by(n.id, lambda m: m.id in ref_ids)
-        R.ob("F5", "FitBase.do_fit:data reference before first pass", ok, (df.file, n.lineno),
-             "the first minimiser run is not preceded by _set_data_as_model_ref(): model-relative uncertainties would be taken relative to the start values")
-    for n, c in fit:
-        srcs = [g.entry.id] + [o.id for o, _ in fit]
-        bad = None
-        for s in srcs:
-            path = g.find_path(s, lambda m, n=n: m.id == n.id, exceptional=False, avoid=lambda m: m.id in pre_ids, strict=(s != g.entry.id))
-            if path:
-                bad = path
-        R.ob("F5", "FitBase.do_fit:pre before run@%s" % ("first" if n in first and n not in later else "later"), bad is None, (df.file, n.lineno),
-             "a minimiser run can be reached without a fresh _pre_fit_iteration (nodes are not frozen for this pass)")
-        path = None if n.id in post_same else g.find_path(n.id, lambda m: m.id == g.exit.id or m.id in fit_ids, exceptional=False, avoid=lambda m: m.id in post_ids)
-        R.ob("F5", "FitBase.do_fit:post after run@%s" % ("first" if n in first and n not in later else "later"), path is None, (df.file, n.lineno),
-             "after a minimiser run the function can return / refit without _post_fit_iteration: nodes stay frozen at the values of the previous pass")
-        # flags of the bracketing calls
-        pf = {_first_fit_arg(pc, 0) for pn, pc in pre if g.find_path(pn.id, lambda m, n=n: m.id == n.id, exceptional=False, avoid=lambda m, n=n: m.id != n.id and m.id in pre_ids | fit_ids)}
-        qf = {_first_fit_arg(post_same[n.id], 1)} if n.id in post_same else {_first_fit_arg(qc, 1) for qn, qc in post if g.find_path(n.id, lambda m, qn=qn: m.id == qn.id, exceptional=False, avoid=lambda m, qn=qn: m.id != qn.id and m.id in post_ids | fit_ids)}
-        R.ob("F5", "FitBase.do_fit:same flag@%s" % ("first" if n in first and n not in later else "later"), len(pf) == 1 and pf == qf, (df.file, n.lineno),
-             "pre and post iteration around one run use different first_fit flags (%s vs %s): the nodes frozen are not the nodes released" % (sorted(pf), sorted(qf)))
-        want_first = "True" if (n in first and n not in later) else "False"
-        R.ob("F5", "FitBase.do_fit:flag value@%s" % ("first" if want_first == "True" else "later"), pf == {want_first}, (df.file, n.lineno),
-             "first_fit must be True exactly for the first pass (found %s)" % sorted(pf))
-    for n in later:
-        bad = None
-        for pn, _ in pre:
-            path = g.find_path(pn.id, lambda m, n=n: m.id == n.id, exceptional=False, avoid=lambda m: m.id in reset_ids or m.id in pre_ids)
-            if path:
-                bad = path
-        R.ob("F5", "FitBase.do_fit:reset before later run", bad is None, (df.file, n.lineno), "a refit starts without reset_minimizer(): the backend continues from cached state of the frozen pass")
-    # refit iff dynamic
-    ifs = [n for n in ast.walk(df.node) if isinstance(n, ast.If) and isinstance(n.test, ast.Call) and _self_call(n.test, "_iterative_fits_needed")]
-    ok = len(ifs) == 1
-    if ok:
-        i = ifs[0]
-        loops = [s for s in i.body if isinstance(s, ast.For)]
-        ok = len(loops) == 1 and len(i.orelse) == 1 and isinstance(i.orelse[0], ast.If) and isinstance(i.orelse[0].test, ast.Call) and _self_call(i.orelse[0].test, "_second_fit_needed") \
-            and not i.orelse[0].orelse
+    with R.guard("F5"):
+        df = get_func(p, "FitBase", "do_fit")  # canonical: a refit block moved into a private helper is written out
+        g = eng.cfg(df)
+        pre, post, fit, reset, ref = [], [], [], [], []
+        for n in g.nodes:
+            for c in _calls_in(n):
+                if _self_call(c, "_pre_fit_iteration"):
+                    pre.append((n, c))
+                elif _self_call(c, "_post_fit_iteration"):
+                    post.append((n, c))
+                elif _fitter_call(c, "do_fit"):
+                    fit.append((n, c))
+                elif _fitter_call(c, "reset_minimizer"):
+                    reset.append((n, c))
+                elif _self_call(c, "_set_data_as_model_ref"):
+                    ref.append((n, c))
+        if not fit or not pre or not post:
+            raise AnalysisError("FitBase.do_fit: minimiser runs / pre / post iteration calls not found")
+        where = (df.file, df.lineno)
+        fit_ids = {n.id for n, _ in fit}
+        pre_ids = {n.id for n, _ in pre}
+        post_ids = {n.id for n, _ in post}
+        reset_ids = {n.id for n, _ in reset}
+        ref_ids = {n.id for n, _ in ref}
+        # `self._post_fit_iteration(self._fitter.do_fit(), ...)`: the run is an argument of its own post call (one statement)
+        post_same = {n.id: c for n, c in post if any(_fitter_call(x, "do_fit") for a in list(c.args) + [k.value for k in c.keywords] for x in ast.walk(a) if isinstance(x, ast.Call))}
+        # the first minimiser run: reachable from entry without passing another run
+        first = [n for n, _ in fit if g.find_path(g.entry.id, lambda m, n=n: m.id == n.id, exceptional=False, avoid=lambda m, n=n: m.id in fit_ids and m.id != n.id, strict=False)]
+        later = [n for n, _ in fit if any(g.find_path(o.id, lambda m, n=n: m.id == n.id, exceptional=False) for o, _ in fit)]
+        for n in first:
+            ok, _ = g.dominated_by(n.id, lambda m: m.id in ref_ids)
+            R.ob("F5", "FitBase.do_fit:data reference before first pass", ok, (df.file, n.lineno),
+                 "the first minimiser run is not preceded by _set_data_as_model_ref(): model-relative uncertainties would be taken relative to the start values")
+        for n, c in fit:
+            srcs = [g.entry.id] + [o.id for o, _ in fit]
+            bad = None
+            for s in srcs:
+                path = g.find_path(s, lambda m, n=n: m.id == n.id, exceptional=False, avoid=lambda m: m.id in pre_ids, strict=(s != g.entry.id))
+                if path:
+                    bad = path
+            R.ob("F5", "FitBase.do_fit:pre before run@%s" % ("first" if n in first and n not in later else "later"), bad is None, (df.file, n.lineno),
+                 "a minimiser run can be reached without a fresh _pre_fit_iteration (nodes are not frozen for this pass)")
+            path = None if n.id in post_same else g.find_path(n.id, lambda m: m.id == g.exit.id or m.id in fit_ids, exceptional=False, avoid=lambda m: m.id in post_ids)
+            R.ob("F5", "FitBase.do_fit:post after run@%s" % ("first" if n in first and n not in later else "later"), path is None, (df.file, n.lineno),
+                 "after a minimiser run the function can return / refit without _post_fit_iteration: nodes stay frozen at the values of the previous pass")
+            # flags of the bracketing calls
+            pf = {_first_fit_arg(pc, 0) for pn, pc in pre if g.find_path(pn.id, lambda m, n=n: m.id == n.id, exceptional=False, avoid=lambda m, n=n: m.id != n.id and m.id in pre_ids | fit_ids)}
+            qf = {_first_fit_arg(post_same[n.id], 1)} if n.id in post_same else {_first_fit_arg(qc, 1) for qn, qc in post if g.find_path(n.id, lambda m, qn=qn: m.id == qn.id, exceptional=False, avoid=lambda m, qn=qn: m.id != qn.id and m.id in post_ids | fit_ids)}
+            R.ob("F5", "FitBase.do_fit:same flag@%s" % ("first" if n in first and n not in later else "later"), len(pf) == 1 and pf == qf, (df.file, n.lineno),
+                 "pre and post iteration around one run use different first_fit flags (%s vs %s): the nodes frozen are not the nodes released" % (sorted(pf), sorted(qf)))
+            want_first = "True" if (n in first and n not in later) else "False"
+            R.ob("F5", "FitBase.do_fit:flag value@%s" % ("first" if want_first == "True" else "later"), pf == {want_first}, (df.file, n.lineno),
+                 "first_fit must be True exactly for the first pass (found %s)" % sorted(pf))
+        for n in later:
+            bad = None
+            for pn, _ in pre:
+                path = g.find_path(pn.id, lambda m, n=n: m.id == n.id, exceptional=False, avoid=lambda m: m.id in reset_ids or m.id in pre_ids)
+                if path:
+                    bad = path
+            R.ob("F5", "FitBase.do_fit:reset before later run", bad is None, (df.file, n.lineno), "a refit starts without reset_minimizer(): the backend continues from cached state of the frozen pass")
+        # refit iff dynamic
+        ifs = [n for n in ast.walk(df.node) if isinstance(n, ast.If) and isinstance(n.test, ast.Call) and _self_call(n.test, "_iterative_fits_needed")]
+        ok = len(ifs) == 1
         if ok:
-            lp = loops[0]
-            body_calls = [c for s in lp.body for c in ast.walk(s) if isinstance(c, ast.Call)]
-            ok = any(_fitter_call(c, "do_fit") for c in body_calls)
-            el = i.orelse[0]
-            el_calls = [c for s in el.body for c in ast.walk(s) if isinstance(c, ast.Call)]
-            n_fit_el = sum(1 for c in el_calls if _fitter_call(c, "do_fit"))
-            R.ob("F5", "FitBase.do_fit:nonlinear refits once", n_fit_el == 1 and not any(isinstance(s, (ast.For, ast.While)) for s in ast.walk(el) if s is not el), (df.file, el.lineno),
-                 "the nonlinear treatment must refit exactly once with unfrozen uncertainties")
-            # convergence test
-            tests = [s for s in lp.body if isinstance(s, ast.If) and s.body and isinstance(s.body[-1], ast.Break)]
-            conv = False
-            prev_name = None
-            if len(tests) == 1 and isinstance(tests[0].test, ast.Compare) and len(tests[0].test.ops) == 1 and isinstance(tests[0].test.ops[0], (ast.Lt, ast.LtE)):
-                l = tests[0].test.left
-                if isinstance(l, ast.Call) and isinstance(l.func, ast.Name) and l.func.id == "abs" and isinstance(l.args[0], ast.BinOp) and isinstance(l.args[0].op, ast.Sub):
-                    a, b = l.args[0].left, l.args[0].right
-                    names = [x.id for x in (a, b) if isinstance(x, ast.Name)]
-                    live = [x for x in (a, b) if self_attr(x) == "cost_function_value"]
-                    if len(names) == 1 and len(live) == 1:
-                        prev_name = names[0]
-                        idx = lp.body.index(tests[0])
-                        upd = [s for s in lp.body[idx + 1:] if isinstance(s, ast.Assign) and _txt(s) == "%s = self.cost_function_value" % prev_name]
-                        init = [s for s in i.body if isinstance(s, ast.Assign) and _txt(s) == "%s = self.cost_function_value" % prev_name and s.lineno < lp.lineno]
-                        lim = _txt(tests[0].test.comparators[0])
-                        limdef = [s for s in i.body if isinstance(s, ast.Assign) and _txt(s.targets[0]) == lim and "convergence_limit" in _txt(s.value)]
-                        fit_before = any(_fitter_call(c, "do_fit") for s in lp.body[:idx] for c in ast.walk(s) if isinstance(c, ast.Call))
-                        conv = bool(upd) and bool(init) and bool(limdef) and fit_before
-            R.ob("F5", "FitBase.do_fit:iterative convergence", ok and conv, (df.file, lp.lineno),
-                 "the iterative treatment must refit until |cost - previous cost| < convergence limit, comparing with the cost of the previous pass (updated every pass)")
-    R.ob("F5", "FitBase.do_fit:refit iff dynamic", ok, where, "the refit must be `if _iterative_fits_needed(): loop … elif _second_fit_needed(): one refit` with no other path refitting")
+            i = ifs[0]
+            loops = [s for s in i.body if isinstance(s, ast.For)]
+            ok = len(loops) == 1 and len(i.orelse) == 1 and isinstance(i.orelse[0], ast.If) and isinstance(i.orelse[0].test, ast.Call) and _self_call(i.orelse[0].test, "_second_fit_needed") \
+                and not i.orelse[0].orelse
+            if ok:
+                lp = loops[0]
+                body_calls = [c for s in lp.body for c in ast.walk(s) if isinstance(c, ast.Call)]
+                ok = any(_fitter_call(c, "do_fit") for c in body_calls)
+                el = i.orelse[0]
+                el_calls = [c for s in el.body for c in ast.walk(s) if isinstance(c, ast.Call)]
+                n_fit_el = sum(1 for c in el_calls if _fitter_call(c, "do_fit"))
+                R.ob("F5", "FitBase.do_fit:nonlinear refits once", n_fit_el == 1 and not any(isinstance(s, (ast.For, ast.While)) for s in ast.walk(el) if s is not el), (df.file, el.lineno),
+                     "the nonlinear treatment must refit exactly once with unfrozen uncertainties")
+                # convergence test
+                tests = [s for s in lp.body if isinstance(s, ast.If) and s.body and isinstance(s.body[-1], ast.Break)]
+                conv = False
+                prev_name = None
+                if len(tests) == 1 and isinstance(tests[0].test, ast.Compare) and len(tests[0].test.ops) == 1 and isinstance(tests[0].test.ops[0], (ast.Lt, ast.LtE)):
+                    l = tests[0].test.left
+                    if isinstance(l, ast.Call) and isinstance(l.func, ast.Name) and l.func.id == "abs" and isinstance(l.args[0], ast.BinOp) and isinstance(l.args[0].op, ast.Sub):
+                        a, b = l.args[0].left, l.args[0].right
+                        names = [x.id for x in (a, b) if isinstance(x, ast.Name)]
+                        live = [x for x in (a, b) if self_attr(x) == "cost_function_value"]
+                        if len(names) == 1 and len(live) == 1:
+                            prev_name = names[0]
+                            idx = lp.body.index(tests[0])
+                            upd = [s for s in lp.body[idx + 1:] if isinstance(s, ast.Assign) and _txt(s) == "%s = self.cost_function_value" % prev_name]
+                            init = [s for s in i.body if isinstance(s, ast.Assign) and _txt(s) == "%s = self.cost_function_value" % prev_name and s.lineno < lp.lineno]
+                            lim = _txt(tests[0].test.comparators[0])
+                            limdef = [s for s in i.body if isinstance(s, ast.Assign) and _txt(s.targets[0]) == lim and "convergence_limit" in _txt(s.value)]
+                            fit_before = any(_fitter_call(c, "do_fit") for s in lp.body[:idx] for c in ast.walk(s) if isinstance(c, ast.Call))
+                            conv = bool(upd) and bool(init) and bool(limdef) and fit_before
+                R.ob("F5", "FitBase.do_fit:iterative convergence", ok and conv, (df.file, lp.lineno),
+                     "the iterative treatment must refit until |cost - previous cost| < convergence limit, comparing with the cost of the previous pass (updated every pass)")
+        R.ob("F5", "FitBase.do_fit:refit iff dynamic", ok, where, "the refit must be `if _iterative_fits_needed(): loop … elif _second_fit_needed(): one refit` with no other path refitting")
 
     # ------------------------------------------------------------------ F5-freeze
-    for fn, want in (("_pre_fit_iteration", ["update", "freeze"]), ("_post_fit_iteration", ["unfreeze", "update", "notify_parents"])):
-        f = get_func(p, "FitBase", fn)
-        loops = [n for n in ast.walk(f.node) if isinstance(n, ast.For)]
-        loops = [l for l in loops if isinstance(l.iter, ast.Call) and _self_call(l.iter, "_get_node_names_to_freeze")]
-        ok = len(loops) == 1 and _txt(loops[0].iter) == "self._get_node_names_to_freeze(first_fit)"
-        R.ob("F5-freeze", "FitBase.%s:names" % fn, ok, (f.file, f.lineno), "%s must walk self._get_node_names_to_freeze(first_fit)" % fn)
-        if ok:
-            lp = loops[0]
-            tgt = lp.target.id if isinstance(lp.target, ast.Name) else None
-            node_var = None
-            seq = []
-            for s in lp.body:
-                if isinstance(s, ast.Assign) and isinstance(s.value, ast.Call) and _txt(s.value) == "self._nexus.get(%s)" % tgt and isinstance(s.targets[0], ast.Name):
-                    node_var = s.targets[0].id
-                elif isinstance(s, ast.Expr) and isinstance(s.value, ast.Call) and isinstance(s.value.func, ast.Attribute) and isinstance(s.value.func.value, ast.Name) \
-                        and s.value.func.value.id == node_var:
-                    seq.append(s.value.func.attr)
-            R.ob("F5-freeze", "FitBase.%s:sequence" % fn, seq == want, (f.file, lp.lineno), "%s must call %s on every listed node, in this order (found %s)" % (fn, want, seq))
-    # freeze lists
-    f = get_func(p, "FitBase", "_get_node_names_to_freeze")
-    rets = [r for r in ast.walk(f.node) if isinstance(r, ast.Return)]
-    got = {}
-    for r in rets:
-        conds = common.guard_conditions(f.node, r)
-        got[_txt(r.value)] = [(_txt(c), pol) for c, pol in conds]
-    want_cond = "first_fit or not self._param_model.get_matching_errors({'relative': True}) or self._dynamic_error_algorithm == 'iterative'"
-    ok = got.get("self._MODEL_ERROR_NODE_NAMES") == [(want_cond, True)] and got.get("[]") == [(want_cond, False)]
-    disj = set()
-    if "self._MODEL_ERROR_NODE_NAMES" in got and len(got["self._MODEL_ERROR_NODE_NAMES"]) == 1:
-        c = [c for c, pol in common.guard_conditions(f.node, [r for r in rets if _txt(r.value) == "self._MODEL_ERROR_NODE_NAMES"][0])][0]
-        if isinstance(c, ast.BoolOp) and isinstance(c.op, ast.Or):
-            disj = {_txt(v) for v in c.values}
-            ok = disj == set(want_cond.split(" or ")) and got.get("[]") is not None and got["[]"][0][1] is False
-    R.ob("F5-freeze", "FitBase._get_node_names_to_freeze", ok, (f.file, f.lineno),
-         "model error nodes must be frozen in the first pass, when no model-relative uncertainty exists, and in every pass of the iterative treatment - and in no other pass (found %s)" % got)
-    f = get_func(p, "XYFit", "_get_node_names_to_freeze")
-    rets = [r for r in ast.walk(f.node) if isinstance(r, ast.Return)]
-    got = {}
-    for r in rets:
-        # (temporaries for the condition and for the base list are read through)
-        conds = [(common.resolve_local(f.node, c), pol) for c, pol in common.guard_conditions(f.node, r)]
-        got[_txt(common.resolve_local(f.node, r.value))] = [(frozenset(_txt(v) for v in (c.values if isinstance(c, ast.BoolOp) and isinstance(c.op, ast.Or) else [c])), pol) for c, pol in conds]
-    wc = frozenset({"self._dynamic_error_algorithm == 'iterative'", "first_fit and self.has_x_errors"})
-    sup = "super(XYFit, self)._get_node_names_to_freeze(first_fit)"
-    ok = got.get("self._PROJECTED_NODE_NAMES + " + sup) == [(wc, True)] and got.get(sup) == [(wc, False)]
-    R.ob("F5-freeze", "XYFit._get_node_names_to_freeze", ok, (f.file, f.lineno),
-         "the projected (x-error) nodes must be frozen in every pass of the iterative treatment and in the first pass when x uncertainties exist, added to the base list (found %s)" % got)
-    for cname, const in (("FitBase", "_MODEL_ERROR_NODE_NAMES"), ("XYFit", "_PROJECTED_NODE_NAMES")):
-        for leaf in p.find_class(cname).concrete_leafs():
-            try:
-                v = leaf.const_value(const)
-            except Exception:
-                v = None
-            R.ob("F5-freeze", "%s.%s" % (leaf.name, const), isinstance(v, list) and all(isinstance(x, str) for x in v), (leaf.module.relpath, 0),
-                 "%s.%s must be a class-level list of node names (found %r)" % (leaf.name, const, v))
+    with R.guard("F5freeze"):
+        for fn, want in (("_pre_fit_iteration", ["update", "freeze"]), ("_post_fit_iteration", ["unfreeze", "update", "notify_parents"])):
+            f = get_func(p, "FitBase", fn)
+            loops = [n for n in ast.walk(f.node) if isinstance(n, ast.For)]
+            loops = [l for l in loops if isinstance(l.iter, ast.Call) and _self_call(l.iter, "_get_node_names_to_freeze")]
+            ok = len(loops) == 1 and _txt(loops[0].iter) == "self._get_node_names_to_freeze(first_fit)"
+            R.ob("F5-freeze", "FitBase.%s:names" % fn, ok, (f.file, f.lineno), "%s must walk self._get_node_names_to_freeze(first_fit)" % fn)
+            if ok:
+                lp = loops[0]
+                tgt = lp.target.id if isinstance(lp.target, ast.Name) else None
+                node_var = None
+                seq = []
+                for s in lp.body:
+                    if isinstance(s, ast.Assign) and isinstance(s.value, ast.Call) and _txt(s.value) == "self._nexus.get(%s)" % tgt and isinstance(s.targets[0], ast.Name):
+                        node_var = s.targets[0].id
+                    elif isinstance(s, ast.Expr) and isinstance(s.value, ast.Call) and isinstance(s.value.func, ast.Attribute) and isinstance(s.value.func.value, ast.Name) \
+                            and s.value.func.value.id == node_var:
+                        seq.append(s.value.func.attr)
+                R.ob("F5-freeze", "FitBase.%s:sequence" % fn, seq == want, (f.file, lp.lineno), "%s must call %s on every listed node, in this order (found %s)" % (fn, want, seq))
+        # freeze lists
+        f = get_func(p, "FitBase", "_get_node_names_to_freeze")
+        rets = [r for r in ast.walk(f.node) if isinstance(r, ast.Return)]
+        got = {}
+        for r in rets:
+            conds = common.guard_conditions(f.node, r)
+            got[_txt(r.value)] = [(_txt(c), pol) for c, pol in conds]
+        want_cond = "first_fit or not self._param_model.get_matching_errors({'relative': True}) or self._dynamic_error_algorithm == 'iterative'"
+        ok = got.get("self._MODEL_ERROR_NODE_NAMES") == [(want_cond, True)] and got.get("[]") == [(want_cond, False)]
+        disj = set()
+        if "self._MODEL_ERROR_NODE_NAMES" in got and len(got["self._MODEL_ERROR_NODE_NAMES"]) == 1:
+            c = [c for c, pol in common.guard_conditions(f.node, [r for r in rets if _txt(r.value) == "self._MODEL_ERROR_NODE_NAMES"][0])][0]
+            if isinstance(c, ast.BoolOp) and isinstance(c.op, ast.Or):
+                disj = {_txt(v) for v in c.values}
+                ok = disj == set(want_cond.split(" or ")) and got.get("[]") is not None and got["[]"][0][1] is False
+        R.ob("F5-freeze", "FitBase._get_node_names_to_freeze", ok, (f.file, f.lineno),
+             "model error nodes must be frozen in the first pass, when no model-relative uncertainty exists, and in every pass of the iterative treatment - and in no other pass (found %s)" % got)
+        f = get_func(p, "XYFit", "_get_node_names_to_freeze")
+        rets = [r for r in ast.walk(f.node) if isinstance(r, ast.Return)]
+        got = {}
+        for r in rets:
+            # (temporaries for the condition and for the base list are read through)
+            conds = [(common.resolve_local(f.node, c), pol) for c, pol in common.guard_conditions(f.node, r)]
+            got[_txt(common.resolve_local(f.node, r.value))] = [(frozenset(_txt(v) for v in (c.values if isinstance(c, ast.BoolOp) and isinstance(c.op, ast.Or) else [c])), pol) for c, pol in conds]
+        wc = frozenset({"self._dynamic_error_algorithm == 'iterative'", "first_fit and self.has_x_errors"})
+        sup = "super(XYFit, self)._get_node_names_to_freeze(first_fit)"
+        ok = got.get("self._PROJECTED_NODE_NAMES + " + sup) == [(wc, True)] and got.get(sup) == [(wc, False)]
+        R.ob("F5-freeze", "XYFit._get_node_names_to_freeze", ok, (f.file, f.lineno),
+             "the projected (x-error) nodes must be frozen in every pass of the iterative treatment and in the first pass when x uncertainties exist, added to the base list (found %s)" % got)
+        for cname, const in (("FitBase", "_MODEL_ERROR_NODE_NAMES"), ("XYFit", "_PROJECTED_NODE_NAMES")):
+            for leaf in p.find_class(cname).concrete_leafs():
+                try:
+                    v = leaf.const_value(const)
+                except Exception:
+                    v = None
+                R.ob("F5-freeze", "%s.%s" % (leaf.name, const), isinstance(v, list) and all(isinstance(x, str) for x in v), (leaf.module.relpath, 0),
+                     "%s.%s must be a class-level list of node names (found %r)" % (leaf.name, const, v))
 
-    # class-level node lists are shared by all instances: nobody may mutate what a list-returning helper hands out
-    MUT = {"append", "extend", "insert", "remove", "pop", "sort", "reverse", "clear"}
-    fitbase = p.find_class("FitBase")
-    const_returning = set()
-    for cls in fitbase.concrete_leafs():
-        for name, m in cls.all_methods().items():
-            if not hasattr(m, "node"):
+        # class-level node lists are shared by all instances: nobody may mutate what a list-returning helper hands out
+        MUT = {"append", "extend", "insert", "remove", "pop", "sort", "reverse", "clear"}
+        fitbase = p.find_class("FitBase")
+        const_returning = set()
+        for cls in fitbase.concrete_leafs():
+            for name, m in cls.all_methods().items():
+                if not hasattr(m, "node"):
+                    continue
+                for r in ast.walk(m.node):
+                    if isinstance(r, ast.Return) and r.value is not None and self_attr(r.value) and self_attr(r.value).isupper():
+                        const_returning.add(name)
+        n_sites = 0
+        for f in p.all_functions():
+            if f.cls is None or fitbase not in f.cls.mro:
                 continue
-            for r in ast.walk(m.node):
-                if isinstance(r, ast.Return) and r.value is not None and self_attr(r.value) and self_attr(r.value).isupper():
-                    const_returning.add(name)
-    n_sites = 0
-    for f in p.all_functions():
-        if f.cls is None or fitbase not in f.cls.mro:
-            continue
-        tainted = {}
-        for n in ast.walk(f.node):
-            if isinstance(n, ast.Assign) and len(n.targets) == 1 and isinstance(n.targets[0], ast.Name):
-                v = n.value
-                if self_attr(v) and self_attr(v).isupper():
-                    tainted[n.targets[0].id] = "self.%s" % self_attr(v)
-                elif isinstance(v, ast.Call) and isinstance(v.func, ast.Attribute) and v.func.attr in const_returning:
-                    tainted[n.targets[0].id] = "%s()" % v.func.attr
-        bad = []
-        for n in ast.walk(f.node):
-            if isinstance(n, ast.AugAssign):
-                t = n.target
-                if (isinstance(t, ast.Name) and t.id in tainted) or (self_attr(t) and self_attr(t).isupper()):
-                    bad.append((n.lineno, "%s %s= ..." % (_txt(t), type(n.op).__name__)))
-            if isinstance(n, ast.Call) and isinstance(n.func, ast.Attribute) and n.func.attr in MUT:
-                r = n.func.value
-                if (isinstance(r, ast.Name) and r.id in tainted) or (self_attr(r) and self_attr(r).isupper()):
-                    bad.append((n.lineno, _txt(n)[:60]))
-            if isinstance(n, (ast.Assign, ast.Delete)):
-                for t in (n.targets if hasattr(n, "targets") else []):
-                    if isinstance(t, ast.Subscript) and ((isinstance(t.value, ast.Name) and t.value.id in tainted) or (self_attr(t.value) and self_attr(t.value).isupper())):
-                        bad.append((n.lineno, _txt(t)))
-        if tainted or bad:
-            n_sites += 1
-            R.ob("F5-freeze", "%s:class-level list not mutated" % f.qualname, not bad, (f.file, bad[0][0] if bad else f.lineno),
-                 "%s mutates a class-level list in place (%s): the node list of every other instance and of every later fit changes with it" % (f.qualname, "; ".join(b for _, b in bad)))
-    if len(const_returning) < 1:
-        raise AnalysisError("no helper returning a class-level node list found")
+            tainted = {}
+            for n in ast.walk(f.node):
+                if isinstance(n, ast.Assign) and len(n.targets) == 1 and isinstance(n.targets[0], ast.Name):
+                    v = n.value
+                    if self_attr(v) and self_attr(v).isupper():
+                        tainted[n.targets[0].id] = "self.%s" % self_attr(v)
+                    elif isinstance(v, ast.Call) and isinstance(v.func, ast.Attribute) and v.func.attr in const_returning:
+                        tainted[n.targets[0].id] = "%s()" % v.func.attr
+            bad = []
+            for n in ast.walk(f.node):
+                if isinstance(n, ast.AugAssign):
+                    t = n.target
+                    if (isinstance(t, ast.Name) and t.id in tainted) or (self_attr(t) and self_attr(t).isupper()):
+                        bad.append((n.lineno, "%s %s= ..." % (_txt(t), type(n.op).__name__)))
+                if isinstance(n, ast.Call) and isinstance(n.func, ast.Attribute) and n.func.attr in MUT:
+                    r = n.func.value
+                    if (isinstance(r, ast.Name) and r.id in tainted) or (self_attr(r) and self_attr(r).isupper()):
+                        bad.append((n.lineno, _txt(n)[:60]))
+                if isinstance(n, (ast.Assign, ast.Delete)):
+                    for t in (n.targets if hasattr(n, "targets") else []):
+                        if isinstance(t, ast.Subscript) and ((isinstance(t.value, ast.Name) and t.value.id in tainted) or (self_attr(t.value) and self_attr(t.value).isupper())):
+                            bad.append((n.lineno, _txt(t)))
+            if tainted or bad:
+                n_sites += 1
+                R.ob("F5-freeze", "%s:class-level list not mutated" % f.qualname, not bad, (f.file, bad[0][0] if bad else f.lineno),
+                     "%s mutates a class-level list in place (%s): the node list of every other instance and of every later fit changes with it" % (f.qualname, "; ".join(b for _, b in bad)))
+        if len(const_returning) < 1:
+            raise AnalysisError("no helper returning a class-level node list found")
 
     # ------------------------------------------------------------------ F5-sib
-    for cname in ("FitBase", "XYFit"):
-        a = get_func(p, cname, "_iterative_fits_needed")
-        b = get_func(p, cname, "_second_fit_needed")
-        ta = [_txt(r.value) for r in ast.walk(a.node) if isinstance(r, ast.Return)]
-        tb = [_txt(r.value) for r in ast.walk(b.node) if isinstance(r, ast.Return)]
-        ok = len(ta) == 1 and len(tb) == 1 and "== 'iterative'" in ta[0] and "== 'nonlinear'" in tb[0] and ta[0].replace("'iterative'", "ALG") == tb[0].replace("'nonlinear'", "ALG")
-        R.ob("F5-sib", "%s:needed predicates" % cname, ok, (a.file, a.lineno),
-             "%s._iterative_fits_needed and ._second_fit_needed must test the same dynamic-uncertainty condition, for 'iterative' and 'nonlinear' respectively" % cname)
-        if ok:
-            dyn = ta[0]
-            need = ["get_matching_errors({'relative': True"] + (["self.has_x_errors"] if cname == "XYFit" else [])
-            R.ob("F5-sib", "%s:dynamic condition" % cname, all(x in dyn for x in need) and " and self._dynamic_error_algorithm == 'iterative'" in dyn, (a.file, a.lineno),
-                 "the refit condition must cover model-relative uncertainties%s" % (" and x uncertainties" if cname == "XYFit" else ""))
-            if cname == "XYFit":
-                r = [r.value for r in ast.walk(a.node) if isinstance(r, ast.Return)][0]
-                shape = isinstance(r, ast.BoolOp) and isinstance(r.op, ast.And) and isinstance(r.values[0], ast.BoolOp) and isinstance(r.values[0].op, ast.Or)
-                R.ob("F5-sib", "XYFit:dynamic condition shape", shape, (a.file, a.lineno), "the condition must be (relative model errors or x errors) and algorithm")
-    for fn, args in (("_set_data_as_model_ref", ""), ("_pre_fit_iteration", "first_fit"), ("_post_fit_iteration", "runtime, first_fit")):
-        f = get_func(p, "MultiFit", fn)
-        loops = [n for n in f.node.body if isinstance(n, ast.For) and _txt(n.iter) == "self._fits"]
-        ok = len(loops) == 1 and len(loops[0].body) == 1 and _txt(loops[0].body[0]) == "%s.%s(%s)" % (_txt(loops[0].target), fn, args)
-        R.ob("F5-sib", "MultiFit.%s" % fn, ok, (f.file, f.lineno), "MultiFit.%s must forward to every member with the same arguments" % fn)
-    for fn in ("_iterative_fits_needed", "_second_fit_needed"):
-        f = get_func(p, "MultiFit", fn)
-        src = _txt(f.node)
-        ok = "for _fit in self._fits: if _fit.%s(): return True return False" % fn in src
-        R.ob("F5-sib", "MultiFit.%s" % fn, ok, (f.file, f.lineno), "MultiFit.%s must be true iff it is true for any member" % fn)
+    with R.guard("F5sib"):
+        for cname in ("FitBase", "XYFit"):
+            a = get_func(p, cname, "_iterative_fits_needed")
+            b = get_func(p, cname, "_second_fit_needed")
+            ta = [_txt(r.value) for r in ast.walk(a.node) if isinstance(r, ast.Return)]
+            tb = [_txt(r.value) for r in ast.walk(b.node) if isinstance(r, ast.Return)]
+            ok = len(ta) == 1 and len(tb) == 1 and "== 'iterative'" in ta[0] and "== 'nonlinear'" in tb[0] and ta[0].replace("'iterative'", "ALG") == tb[0].replace("'nonlinear'", "ALG")
+            R.ob("F5-sib", "%s:needed predicates" % cname, ok, (a.file, a.lineno),
+                 "%s._iterative_fits_needed and ._second_fit_needed must test the same dynamic-uncertainty condition, for 'iterative' and 'nonlinear' respectively" % cname)
+            if ok:
+                dyn = ta[0]
+                need = ["get_matching_errors({'relative': True"] + (["self.has_x_errors"] if cname == "XYFit" else [])
+                R.ob("F5-sib", "%s:dynamic condition" % cname, all(x in dyn for x in need) and " and self._dynamic_error_algorithm == 'iterative'" in dyn, (a.file, a.lineno),
+                     "the refit condition must cover model-relative uncertainties%s" % (" and x uncertainties" if cname == "XYFit" else ""))
+                if cname == "XYFit":
+                    r = [r.value for r in ast.walk(a.node) if isinstance(r, ast.Return)][0]
+                    shape = isinstance(r, ast.BoolOp) and isinstance(r.op, ast.And) and isinstance(r.values[0], ast.BoolOp) and isinstance(r.values[0].op, ast.Or)
+                    R.ob("F5-sib", "XYFit:dynamic condition shape", shape, (a.file, a.lineno), "the condition must be (relative model errors or x errors) and algorithm")
+        for fn, args in (("_set_data_as_model_ref", ""), ("_pre_fit_iteration", "first_fit"), ("_post_fit_iteration", "runtime, first_fit")):
+            f = get_func(p, "MultiFit", fn)
+            loops = [n for n in f.node.body if isinstance(n, ast.For) and _txt(n.iter) == "self._fits"]
+            ok = len(loops) == 1 and len(loops[0].body) == 1 and _txt(loops[0].body[0]) == "%s.%s(%s)" % (_txt(loops[0].target), fn, args)
+            R.ob("F5-sib", "MultiFit.%s" % fn, ok, (f.file, f.lineno), "MultiFit.%s must forward to every member with the same arguments" % fn)
+        for fn in ("_iterative_fits_needed", "_second_fit_needed"):
+            f = get_func(p, "MultiFit", fn)
+            src = _txt(f.node)
+            ok = "for _fit in self._fits: if _fit.%s(): return True return False" % fn in src
+            R.ob("F5-sib", "MultiFit.%s" % fn, ok, (f.file, f.lineno), "MultiFit.%s must be true iff it is true for any member" % fn)
 
     # ------------------------------------------------------------------ S-fix
-    NF = "NexusFitter"
-    table = {"fix_parameter": ("fix", "_fixed_pars", "update"), "release_parameter": ("release", "_fixed_pars", "pop"),
-             "limit_parameter": ("limit", "_limited_pars", "update"), "unlimit_parameter": ("unlimit", "_limited_pars", "pop")}
-    for fn, (mz, field, op) in table.items():
-        f = get_func(p, NF, fn)
-        g = eng.cfg(f)
+    with R.guard("Sfix"):
+        NF = "NexusFitter"
+        table = {"fix_parameter": ("fix", "_fixed_pars", "update"), "release_parameter": ("release", "_fixed_pars", "pop"),
+                 "limit_parameter": ("limit", "_limited_pars", "update"), "unlimit_parameter": ("unlimit", "_limited_pars", "pop")}
+        for fn, (mz, field, op) in table.items():
+            f = get_func(p, NF, fn)
+            g = eng.cfg(f)
 
-        def fwd(n, mz=mz):
-            return any(isinstance(c.func, ast.Attribute) and c.func.attr == mz and self_attr(c.func.value) == "_minimizer" and c.args and _txt(c.args[0]) == "name" for c in _calls_in(n))
+            def fwd(n, mz=mz):
+                return any(isinstance(c.func, ast.Attribute) and c.func.attr == mz and self_attr(c.func.value) == "_minimizer" and c.args and _txt(c.args[0]) == "name" for c in _calls_in(n))
 
-        def rec(n, field=field, op=op):
-            if any(isinstance(c.func, ast.Attribute) and c.func.attr == op and self_attr(c.func.value) == field for c in _calls_in(n)):
-                return True
-            # the same record written as an item store / deletion: self.<field>[name] = ... (for update), del self.<field>[name] (for pop)
-            st = n.stmt if n.kind == "stmt" else None
-            if op == "update" and isinstance(st, ast.Assign):
-                return any(isinstance(t, ast.Subscript) and self_attr(t.value) == field and _txt(t.slice) == "name" for t in st.targets)
-            if op == "pop" and isinstance(st, ast.Delete):
-                return any(isinstance(t, ast.Subscript) and self_attr(t.value) == field and _txt(t.slice) == "name" for t in st.targets)
-            return False
-
-        ok1, _ = g.all_paths_pass(g.entry.id, fwd)
-        ok2, _ = g.all_paths_pass(g.entry.id, rec)
-        R.ob("S-fix", "%s.%s:forward" % (NF, fn), ok1, (f.file, f.lineno), "%s does not reach the backend's %s(name) on every path" % (fn, mz))
-        R.ob("S-fix", "%s.%s:record" % (NF, fn), ok2, (f.file, f.lineno), "%s does not record the change in %s on every path (ndf, serialisation and reports read it)" % (fn, field))
-    f = get_func(p, NF, "fix_parameter")
-    src = _txt(f.node)
-    g = eng.cfg(f)
-    sets = [n for n in g.nodes if any(_self_call(c, "set_fit_parameter_values") for c in _calls_in(n))]
-    fixes = [n for n in g.nodes if any(isinstance(c.func, ast.Attribute) and c.func.attr == "fix" for c in _calls_in(n))]
-    ok = bool(sets) and bool(fixes) and "if value is not None: self.set_fit_parameter_values(**{name: value})" in src \
-        and all(g.find_path(fx.id, lambda m, s=s: m.id == s.id, exceptional=False) is None for fx in fixes for s in sets)
-    R.ob("S-fix", "%s.fix_parameter:value first" % NF, ok, (f.file, f.lineno), "a value given with fix_parameter must be set (graph and backend) before the parameter is fixed")
-    R.ob("S-fix", "%s.fix_parameter:recorded value" % NF, "self._fixed_pars.update(self.get_fit_parameter_values([name]))" in src, (f.file, f.lineno),
-         "the recorded fixed value must be the value the graph holds for that name")
-    f = get_func(p, NF, "_minimize")
-    g = eng.cfg(f)
-    mins = [n for n in g.nodes if any(isinstance(c.func, ast.Attribute) and c.func.attr == "minimize" and self_attr(c.func.value) == "_minimizer" for c in _calls_in(n))]
-    src = _txt(f.node)
-    ok = len(mins) == 1 and "self._fcn_wrapper(*self._minimizer.parameter_values)" in src
-    if ok:
-        ok, _ = g.all_paths_pass(mins[0].id, lambda n: any(_self_call(c, "_fcn_wrapper") for c in _calls_in(n)))
-    R.ob("S-fix", "%s._minimize:sync" % NF, ok, (f.file, f.lineno), "after the backend returns, the graph must be evaluated once more at the backend's final parameter values")
-    f = get_func(p, NF, "_fcn_wrapper")
-    src = _txt(f.node)
-    R.ob("S-fix", "%s._fcn_wrapper" % NF, "for _par, _new_value in zip(self._fit_pars, fit_par_value_list): _par.value = _new_value" in src and "return self._min_par.value" in src, (f.file, f.lineno),
-         "the objective handed to the backend must set every fit parameter node, in order, and return the node to minimise")
-    for fn in ("set_fit_parameter_values", "set_all_fit_parameter_values"):
-        f = get_func(p, NF, fn)
-        src = _txt(f.node)
-        ok = "self._minimizer.set(_par_name, _new_value)" in src and (".value = _new_value" in src)
-        R.ob("S-fix", "%s.%s" % (NF, fn), ok, (f.file, f.lineno), "%s must set the value in the graph and in the backend" % fn)
-    for cname, fn, callee in (("FitBase", "fix_parameter", "fix_parameter"), ("FitBase", "release_parameter", "release_parameter"), ("FitBase", "limit_parameter", "limit_parameter"),
-                              ("FitBase", "unlimit_parameter", "unlimit_parameter")):
-        f = get_func(p, cname, fn)
-        g = eng.cfg(f)
-        hits = [n for n in g.nodes if any(_fitter_call(c, callee) for c in _calls_in(n))]
-        R.ob("S-fix", "%s.%s:forward" % (cname, fn), bool(hits), (f.file, f.lineno), "%s.%s must forward to the fitter" % (cname, fn))
-
-    # a re-created fitter inherits the fixed and limited parameters of the one it replaces
-    n_init = 0
-    for cls in p.find_class("FitBase").concrete_leafs():
-        f = cls.find_method("_initialize_fitter")
-        if f is None or f.cls is not cls:
-            continue
-        n_init += 1
-        g = eng.cfg(f)
-        mk = [n for n in g.nodes if n.kind == "stmt" and isinstance(n.stmt, ast.Assign) and any(self_attr(t) == "_fitter" for t in n.stmt.targets)
-              and isinstance(n.stmt.value, ast.Call) and _txt(n.stmt.value.func) == "NexusFitter"]
-        ok = len(mk) == 1
-        if ok:
-            saved = [n for n in g.nodes if n.kind == "stmt" and isinstance(n.stmt, ast.Assign) and "_fitter" in _txt(n.stmt.value) and isinstance(n.stmt.targets[0], ast.Name)]
-            old = _txt(saved[0].stmt.targets[0]) if saved else "?"
-
-            def restores(n, old=old):
-                # the helper call, or (canonical program: helper written out) the loop that re-applies the old fitter's fixed parameters
-                if any(_self_call(c, "_restore_fitter_configuration") for c in _calls_in(n)):
+            def rec(n, field=field, op=op):
+                if any(isinstance(c.func, ast.Attribute) and c.func.attr == op and self_attr(c.func.value) == field for c in _calls_in(n)):
                     return True
-                return n.kind == "test" and _txt(n.expr) == "%s is not None" % old
+                # the same record written as an item store / deletion: self.<field>[name] = ... (for update), del self.<field>[name] (for pop)
+                st = n.stmt if n.kind == "stmt" else None
+                if op == "update" and isinstance(st, ast.Assign):
+                    return any(isinstance(t, ast.Subscript) and self_attr(t.value) == field and _txt(t.slice) == "name" for t in st.targets)
+                if op == "pop" and isinstance(st, ast.Delete):
+                    return any(isinstance(t, ast.Subscript) and self_attr(t.value) == field and _txt(t.slice) == "name" for t in st.targets)
+                return False
 
-            ok, _ = g.all_paths_pass(mk[0].id, restores)
-            if ok and not any(_self_call(c, "_restore_fitter_configuration") for n in g.nodes for c in _calls_in(n)):
-                src_ = _txt(f.node)
-                ok = src_.all_like("for _k, _v in %s.fixed_parameters.items(): self._fitter.fix_parameter(_k, _v)" % old, "for _k, _l in %s.limited_parameters.items(): self._fitter.limit_parameter(_k, _l)" % old)
-            ok = ok and bool(saved) and all(g.dominated_by(mk[0].id, lambda n, s=s_: n.id == s.id)[0] for s_ in saved[:1])
-        R.ob("S-fix", "%s._initialize_fitter:configuration kept" % cls.name, ok, (f.file, f.lineno),
-             "%s._initialize_fitter replaces the fitter without carrying over the fixed and limited parameters of the previous one (they are silently released)" % cls.name)
-    if n_init < 2:
-        raise AnalysisError("_initialize_fitter implementations not found")
-    f = get_func(p, "FitBase", "_restore_fitter_configuration")
-    src = _txt(f.node)
-    ok = "for _par_name, _par_value in old_fitter.fixed_parameters.items(): self._fitter.fix_parameter(_par_name, _par_value)" in src \
-        and "for _par_name, _par_limits in old_fitter.limited_parameters.items(): self._fitter.limit_parameter(_par_name, _par_limits)" in src
-    R.ob("S-fix", "FitBase._restore_fitter_configuration", ok, (f.file, f.lineno), "the restore step must fix every previously fixed parameter at its recorded value and re-apply every recorded limit")
+            ok1, _ = g.all_paths_pass(g.entry.id, fwd)
+            ok2, _ = g.all_paths_pass(g.entry.id, rec)
+            R.ob("S-fix", "%s.%s:forward" % (NF, fn), ok1, (f.file, f.lineno), "%s does not reach the backend's %s(name) on every path" % (fn, mz))
+            R.ob("S-fix", "%s.%s:record" % (NF, fn), ok2, (f.file, f.lineno), "%s does not record the change in %s on every path (ndf, serialisation and reports read it)" % (fn, field))
+        f = get_func(p, NF, "fix_parameter")
+        src = _txt(f.node)
+        g = eng.cfg(f)
+        sets = [n for n in g.nodes if any(_self_call(c, "set_fit_parameter_values") for c in _calls_in(n))]
+        fixes = [n for n in g.nodes if any(isinstance(c.func, ast.Attribute) and c.func.attr == "fix" for c in _calls_in(n))]
+        ok = bool(sets) and bool(fixes) and "if value is not None: self.set_fit_parameter_values(**{name: value})" in src \
+            and all(g.find_path(fx.id, lambda m, s=s: m.id == s.id, exceptional=False) is None for fx in fixes for s in sets)
+        R.ob("S-fix", "%s.fix_parameter:value first" % NF, ok, (f.file, f.lineno), "a value given with fix_parameter must be set (graph and backend) before the parameter is fixed")
+        R.ob("S-fix", "%s.fix_parameter:recorded value" % NF, "self._fixed_pars.update(self.get_fit_parameter_values([name]))" in src, (f.file, f.lineno),
+             "the recorded fixed value must be the value the graph holds for that name")
+        f = get_func(p, NF, "_minimize")
+        g = eng.cfg(f)
+        mins = [n for n in g.nodes if any(isinstance(c.func, ast.Attribute) and c.func.attr == "minimize" and self_attr(c.func.value) == "_minimizer" for c in _calls_in(n))]
+        src = _txt(f.node)
+        ok = len(mins) == 1 and "self._fcn_wrapper(*self._minimizer.parameter_values)" in src
+        if ok:
+            ok, _ = g.all_paths_pass(mins[0].id, lambda n: any(_self_call(c, "_fcn_wrapper") for c in _calls_in(n)))
+        R.ob("S-fix", "%s._minimize:sync" % NF, ok, (f.file, f.lineno), "after the backend returns, the graph must be evaluated once more at the backend's final parameter values")
+        f = get_func(p, NF, "_fcn_wrapper")
+        src = _txt(f.node)
+        R.ob("S-fix", "%s._fcn_wrapper" % NF, "for _par, _new_value in zip(self._fit_pars, fit_par_value_list): _par.value = _new_value" in src and "return self._min_par.value" in src, (f.file, f.lineno),
+             "the objective handed to the backend must set every fit parameter node, in order, and return the node to minimise")
+        for fn in ("set_fit_parameter_values", "set_all_fit_parameter_values"):
+            f = get_func(p, NF, fn)
+            src = _txt(f.node)
+            ok = "self._minimizer.set(_par_name, _new_value)" in src and (".value = _new_value" in src)
+            R.ob("S-fix", "%s.%s" % (NF, fn), ok, (f.file, f.lineno), "%s must set the value in the graph and in the backend" % fn)
+        for cname, fn, callee in (("FitBase", "fix_parameter", "fix_parameter"), ("FitBase", "release_parameter", "release_parameter"), ("FitBase", "limit_parameter", "limit_parameter"),
+                                  ("FitBase", "unlimit_parameter", "unlimit_parameter")):
+            f = get_func(p, cname, fn)
+            g = eng.cfg(f)
+            hits = [n for n in g.nodes if any(_fitter_call(c, callee) for c in _calls_in(n))]
+            R.ob("S-fix", "%s.%s:forward" % (cname, fn), bool(hits), (f.file, f.lineno), "%s.%s must forward to the fitter" % (cname, fn))
+
+        # a re-created fitter inherits the fixed and limited parameters of the one it replaces
+        n_init = 0
+        for cls in p.find_class("FitBase").concrete_leafs():
+            f = cls.find_method("_initialize_fitter")
+            if f is None or f.cls is not cls:
+                continue
+            n_init += 1
+            g = eng.cfg(f)
+            mk = [n for n in g.nodes if n.kind == "stmt" and isinstance(n.stmt, ast.Assign) and any(self_attr(t) == "_fitter" for t in n.stmt.targets)
+                  and isinstance(n.stmt.value, ast.Call) and _txt(n.stmt.value.func) == "NexusFitter"]
+            ok = len(mk) == 1
+            if ok:
+                saved = [n for n in g.nodes if n.kind == "stmt" and isinstance(n.stmt, ast.Assign) and "_fitter" in _txt(n.stmt.value) and isinstance(n.stmt.targets[0], ast.Name)]
+                old = _txt(saved[0].stmt.targets[0]) if saved else "?"
+
+                def restores(n, old=old):
+                    # the helper call, or (canonical program: helper written out) the loop that re-applies the old fitter's fixed parameters
+                    if any(_self_call(c, "_restore_fitter_configuration") for c in _calls_in(n)):
+                        return True
+                    return n.kind == "test" and _txt(n.expr) == "%s is not None" % old
+
+                ok, _ = g.all_paths_pass(mk[0].id, restores)
+                if ok and not any(_self_call(c, "_restore_fitter_configuration") for n in g.nodes for c in _calls_in(n)):
+                    src_ = _txt(f.node)
+                    ok = src_.all_like("for _k, _v in %s.fixed_parameters.items(): self._fitter.fix_parameter(_k, _v)" % old, "for _k, _l in %s.limited_parameters.items(): self._fitter.limit_parameter(_k, _l)" % old)
+                ok = ok and bool(saved) and all(g.dominated_by(mk[0].id, lambda n, s=s_: n.id == s.id)[0] for s_ in saved[:1])
+            R.ob("S-fix", "%s._initialize_fitter:configuration kept" % cls.name, ok, (f.file, f.lineno),
+                 "%s._initialize_fitter replaces the fitter without carrying over the fixed and limited parameters of the previous one (they are silently released)" % cls.name)
+        if n_init < 2:
+            raise AnalysisError("_initialize_fitter implementations not found")
+        f = get_func(p, "FitBase", "_restore_fitter_configuration")
+        src = _txt(f.node)
+        ok = "for _par_name, _par_value in old_fitter.fixed_parameters.items(): self._fitter.fix_parameter(_par_name, _par_value)" in src \
+            and "for _par_name, _par_limits in old_fitter.limited_parameters.items(): self._fitter.limit_parameter(_par_name, _par_limits)" in src
+        R.ob("S-fix", "FitBase._restore_fitter_configuration", ok, (f.file, f.lineno), "the restore step must fix every previously fixed parameter at its recorded value and re-apply every recorded limit")
 
     # ------------------------------------------------------------------ S-imin
-    IM = "MinimizerIMinuit"
-    f = get_func(p, IM, "_get_iminuit")
-    loops = [n for n in ast.walk(f.node) if isinstance(n, ast.For) and "enumerate(self.parameter_names)" in _txt(n.iter)]
-    ok = len(loops) == 1
-    R.ob("S-imin", "%s._get_iminuit:loop" % IM, ok, (f.file, f.lineno), "the Minuit object must be configured in one loop over all parameter names")
-    if ok:
-        lp = loops[0]
-        idx, nm = (lp.target.elts[0].id, lp.target.elts[1].id) if isinstance(lp.target, ast.Tuple) else (None, None)
-        for attr, key in (("fixed", "fix_"), ("limits", "limit_")):
-            hits = []
-            for s in ast.walk(lp):
-                if isinstance(s, ast.Assign) and len(s.targets) == 1 and isinstance(s.targets[0], ast.Subscript) and isinstance(s.targets[0].value, ast.Attribute) \
-                        and s.targets[0].value.attr == attr and _txt(s.targets[0].slice) == idx:
-                    hits.append(s)
-            good = False
-            if len(hits) == 1:
-                s = hits[0]
-                conds = common.guard_conditions_inside(lp, s)
-                val = s.value
-                # follow one local temporary
-                if isinstance(val, ast.Name):
-                    defs = [d for d in lp.body if isinstance(d, ast.Assign) and isinstance(d.targets[0], ast.Name) and d.targets[0].id == val.id]
-                    val = defs[-1].value if defs else val
-                good = _txt(val) == "self._minimizer_param_dict['%s' + %s]" % (key, nm)
-                if good and conds:
-                    # a guarded application is fine when releasing a parameter rebuilds the object or re-applies the stored setting
-                    rel = get_func(p, IM, "release")
-                    good = any((isinstance(c, ast.Call) and _self_call(c, "reset")) for c in ast.walk(rel.node)) or any(
-                        isinstance(t, ast.Subscript) and isinstance(t.value, ast.Attribute) and t.value.attr == attr for a in ast.walk(rel.node) if isinstance(a, ast.Assign) for t in a.targets)
-            R.ob("S-imin", "%s._get_iminuit:%s" % (IM, attr), good, (f.file, lp.lineno),
-                 "every rebuild must apply the stored %s of every parameter unconditionally (a parameter that is released later keeps what the live object was built with)" % attr)
+    with R.guard("Simin"):
+        IM = "MinimizerIMinuit"
+        f = get_func(p, IM, "_get_iminuit")
+        loops = [n for n in ast.walk(f.node) if isinstance(n, ast.For) and "enumerate(self.parameter_names)" in _txt(n.iter)]
+        ok = len(loops) == 1
+        R.ob("S-imin", "%s._get_iminuit:loop" % IM, ok, (f.file, f.lineno), "the Minuit object must be configured in one loop over all parameter names")
+        if ok:
+            lp = loops[0]
+            idx, nm = (lp.target.elts[0].id, lp.target.elts[1].id) if isinstance(lp.target, ast.Tuple) else (None, None)
+            for attr, key in (("fixed", "fix_"), ("limits", "limit_")):
+                hits = []
+                for s in ast.walk(lp):
+                    if isinstance(s, ast.Assign) and len(s.targets) == 1 and isinstance(s.targets[0], ast.Subscript) and isinstance(s.targets[0].value, ast.Attribute) \
+                            and s.targets[0].value.attr == attr and _txt(s.targets[0].slice) == idx:
+                        hits.append(s)
+                good = False
+                if len(hits) == 1:
+                    s = hits[0]
+                    conds = common.guard_conditions_inside(lp, s)
+                    val = s.value
+                    # follow one local temporary
+                    if isinstance(val, ast.Name):
+                        defs = [d for d in lp.body if isinstance(d, ast.Assign) and isinstance(d.targets[0], ast.Name) and d.targets[0].id == val.id]
+                        val = defs[-1].value if defs else val
+                    good = _txt(val) == "self._minimizer_param_dict['%s' + %s]" % (key, nm)
+                    if good and conds:
+                        # a guarded application is fine when releasing a parameter rebuilds the object or re-applies the stored setting
+                        rel = get_func(p, IM, "release")
+                        good = any((isinstance(c, ast.Call) and _self_call(c, "reset")) for c in ast.walk(rel.node)) or any(
+                            isinstance(t, ast.Subscript) and isinstance(t.value, ast.Attribute) and t.value.attr == attr for a in ast.walk(rel.node) if isinstance(a, ast.Assign) for t in a.targets)
+                R.ob("S-imin", "%s._get_iminuit:%s" % (IM, attr), good, (f.file, lp.lineno),
+                     "every rebuild must apply the stored %s of every parameter unconditionally (a parameter that is released later keeps what the live object was built with)" % attr)
+            src = _txt(f.node)
+            R.ob("S-imin", "%s._get_iminuit:values" % IM, src.like("iminuit.Minuit(self._func_wrapper, *[self._minimizer_param_dict[_pn] for _pn in self.parameter_names], name=self.parameter_names)"), (f.file, f.lineno), "the Minuit object must start from the stored value of every parameter, in order")
+            R.ob("S-imin", "%s._get_iminuit:v1" % IM, "**self._minimizer_param_dict" in src, (f.file, f.lineno), "iminuit 1: the whole stored specification is passed to Minuit")
+        spec = {"fix": ("'fix_' + parameter_name", "True", "live"), "release": ("'fix_' + parameter_name", "False", "live"),
+                "limit": ("'limit_' + parameter_name", "(parameter_bounds[0], parameter_bounds[1])", "reset"), "unlimit": ("'limit_' + parameter_name", "None", "reset"),
+                "set": ("parameter_name", "parameter_value", "reset")}
+        for fn, (key, val, mode) in spec.items():
+            f = get_func(p, IM, fn)
+            g = eng.cfg(f)
+
+            def stores(n, key=key, val=val):
+                st = n.stmt
+                return n.kind == "stmt" and isinstance(st, ast.Assign) and isinstance(st.targets[0], ast.Subscript) and self_attr(st.targets[0].value) == "_minimizer_param_dict" \
+                    and _txt(st.targets[0].slice) == key and _txt(st.value) == val
+
+            ok, _ = g.all_paths_pass(g.entry.id, stores)
+            R.ob("S-imin", "%s.%s:store" % (IM, fn), ok, (f.file, f.lineno), "%s must store %s under %s in the parameter specification on every normal path" % (fn, val, key))
+            if mode == "reset":
+                ok2, _ = g.all_paths_pass(g.entry.id, lambda n: any(_self_call(c, "reset") for c in _calls_in(n)))
+                R.ob("S-imin", "%s.%s:rebuild" % (IM, fn), ok2, (f.file, f.lineno), "%s must discard the live Minuit object so that the next use is rebuilt from the specification" % fn)
+            else:
+                want = "True" if fn == "fix" else "False"
+                live = []
+                for s in ast.walk(f.node):
+                    if isinstance(s, ast.Assign) and isinstance(s.targets[0], ast.Subscript) and _txt(s.value) == want:
+                        recv = common.resolve_local(f.node, s.targets[0].value)   # (a local view of the flag array is read through)
+                        if isinstance(recv, ast.Attribute) and recv.attr == "fixed" and "_get_iminuit()" in _txt(recv):
+                            live.append(s)
+                idxs = {_txt(s.targets[0].slice) for s in live}
+                R.ob("S-imin", "%s.%s:live" % (IM, fn), len(live) == 2 and idxs == {"parameter_name", "self.parameter_names.index(parameter_name)"}, (f.file, f.lineno),
+                     "%s must flip the fixed flag of the same parameter on the live Minuit object (by name for iminuit 1, by its index for iminuit 2)" % fn)
+                ok2, _ = g.all_paths_pass(g.entry.id, lambda n: any(_self_call(c, "_invalidate_cache") for c in _calls_in(n)))
+                R.ob("S-imin", "%s.%s:invalidate" % (IM, fn), ok2, (f.file, f.lineno), "%s must invalidate the cached results" % fn)
+        f = get_func(p, IM, "minimize")
         src = _txt(f.node)
-        R.ob("S-imin", "%s._get_iminuit:values" % IM, src.like("iminuit.Minuit(self._func_wrapper, *[self._minimizer_param_dict[_pn] for _pn in self.parameter_names], name=self.parameter_names)"), (f.file, f.lineno), "the Minuit object must start from the stored value of every parameter, in order")
-        R.ob("S-imin", "%s._get_iminuit:v1" % IM, "**self._minimizer_param_dict" in src, (f.file, f.lineno), "iminuit 1: the whole stored specification is passed to Minuit")
-    spec = {"fix": ("'fix_' + parameter_name", "True", "live"), "release": ("'fix_' + parameter_name", "False", "live"),
-            "limit": ("'limit_' + parameter_name", "(parameter_bounds[0], parameter_bounds[1])", "reset"), "unlimit": ("'limit_' + parameter_name", "None", "reset"),
-            "set": ("parameter_name", "parameter_value", "reset")}
-    for fn, (key, val, mode) in spec.items():
-        f = get_func(p, IM, fn)
+        ok = "for _pn, _pv, _pe in zip(self.parameter_names, self.parameter_values, self.parameter_errors): self._minimizer_param_dict[_pn] = _pv self._minimizer_param_dict['error_' + _pn] = _pe" in src
         g = eng.cfg(f)
-
-        def stores(n, key=key, val=val):
-            st = n.stmt
-            return n.kind == "stmt" and isinstance(st, ast.Assign) and isinstance(st.targets[0], ast.Subscript) and self_attr(st.targets[0].value) == "_minimizer_param_dict" \
-                and _txt(st.targets[0].slice) == key and _txt(st.value) == val
-
-        ok, _ = g.all_paths_pass(g.entry.id, stores)
-        R.ob("S-imin", "%s.%s:store" % (IM, fn), ok, (f.file, f.lineno), "%s must store %s under %s in the parameter specification on every normal path" % (fn, val, key))
-        if mode == "reset":
-            ok2, _ = g.all_paths_pass(g.entry.id, lambda n: any(_self_call(c, "reset") for c in _calls_in(n)))
-            R.ob("S-imin", "%s.%s:rebuild" % (IM, fn), ok2, (f.file, f.lineno), "%s must discard the live Minuit object so that the next use is rebuilt from the specification" % fn)
-        else:
-            want = "True" if fn == "fix" else "False"
-            live = []
-            for s in ast.walk(f.node):
-                if isinstance(s, ast.Assign) and isinstance(s.targets[0], ast.Subscript) and _txt(s.value) == want:
-                    recv = common.resolve_local(f.node, s.targets[0].value)   # (a local view of the flag array is read through)
-                    if isinstance(recv, ast.Attribute) and recv.attr == "fixed" and "_get_iminuit()" in _txt(recv):
-                        live.append(s)
-            idxs = {_txt(s.targets[0].slice) for s in live}
-            R.ob("S-imin", "%s.%s:live" % (IM, fn), len(live) == 2 and idxs == {"parameter_name", "self.parameter_names.index(parameter_name)"}, (f.file, f.lineno),
-                 "%s must flip the fixed flag of the same parameter on the live Minuit object (by name for iminuit 1, by its index for iminuit 2)" % fn)
-            ok2, _ = g.all_paths_pass(g.entry.id, lambda n: any(_self_call(c, "_invalidate_cache") for c in _calls_in(n)))
-            R.ob("S-imin", "%s.%s:invalidate" % (IM, fn), ok2, (f.file, f.lineno), "%s must invalidate the cached results" % fn)
-    f = get_func(p, IM, "minimize")
-    src = _txt(f.node)
-    ok = "for _pn, _pv, _pe in zip(self.parameter_names, self.parameter_values, self.parameter_errors): self._minimizer_param_dict[_pn] = _pv self._minimizer_param_dict['error_' + _pn] = _pe" in src
-    g = eng.cfg(f)
-    mig = [n for n in g.nodes if any(isinstance(c.func, ast.Attribute) and c.func.attr == "migrad" for c in _calls_in(n))]
-    R.ob("S-imin", "%s.minimize:store back" % IM, ok and len(mig) == 1, (f.file, f.lineno), "after migrad the final values and errors must be stored in the specification (a rebuild continues from the optimum)")
-    R.ob("S-imin", "%s.minimize:all fixed" % IM, "if np.all([self.is_fixed(_par_name) for _par_name in self.parameter_names]): raise RuntimeError" in src, (f.file, f.lineno),
-         "a fit with all parameters fixed must be refused")
+        mig = [n for n in g.nodes if any(isinstance(c.func, ast.Attribute) and c.func.attr == "migrad" for c in _calls_in(n))]
+        R.ob("S-imin", "%s.minimize:store back" % IM, ok and len(mig) == 1, (f.file, f.lineno), "after migrad the final values and errors must be stored in the specification (a rebuild continues from the optimum)")
+        R.ob("S-imin", "%s.minimize:all fixed" % IM, "if np.all([self.is_fixed(_par_name) for _par_name in self.parameter_names]): raise RuntimeError" in src, (f.file, f.lineno),
+             "a fit with all parameters fixed must be refused")
 
     # ------------------------------------------------------------------ S-scipy
-    SC = "MinimizerScipyOptimize"
-    f = get_func(p, SC, "minimize")
-    src = _txt(f.node)
-    # canonical form; the locals are placeholders (`_pos` position map, `_nfix` running count of fixed parameters, `_vals` free start values, `_dyn` 2-row table,
-    # `_sel` row selector) - bound jointly, so exchanging two of them between statements is not the same thing
-    # (the current values may be held in a local `_pv`: decided on a copy, so that the probe leaves no binding behind)
-    PV = "_pv" if common.Src(str(src)).all_like("_pv = self.parameter_values", "_pos = np.zeros_like(_pv, dtype=int)") else "self.parameter_values"
-    if PV == "_pv":
-        src.all_like("_pv = self.parameter_values", "_pos = np.zeros_like(_pv, dtype=int)")
-    ok = src.like("for _i, _f in enumerate(self._par_fixed): if _f: _pos[_i] = _i _nfix += 1 else: _pos[_i] = _i - _nfix _vals.append(%s[_i])" % PV)
-    R.ob("S-scipy", "%s.minimize:index map" % SC, ok, (f.file, f.lineno),
-         "the position of a fixed parameter is its own index (row of stored values), the position of a free one is its index minus the number of fixed parameters before it "
-         "(row of minimiser arguments), and exactly the free ones are handed to scipy in order")
-    ok = src.all_like("_nfix = 0", "_vals = []", "_sel = np.array(self._par_fixed, dtype=int)", "_dyn = np.zeros(shape=(2,) + %s.shape)" % PV, "_dyn[1] = %s" % PV)
-    R.ob("S-scipy", "%s.minimize:rows" % SC, ok, (f.file, f.lineno), "row 0 holds the minimiser arguments, row 1 the stored (fixed) values; the row selector is 1 exactly for fixed parameters")
-    ok = src.all_like("def _fn(_args): _dyn[0, 0:-_nfix] = _args return self._func_wrapper_unpack_args(_dyn[_sel, _pos])", "_dyn[0, 0:-_nfix] = self._opt_result.x self._par_val = _dyn[_sel, _pos]")
-    dyn = src._binding.get("_dyn")
-    stores = [s_ for s_ in ast.walk(f.node) if isinstance(s_, (ast.Assign, ast.AugAssign)) for t in (s_.targets if isinstance(s_, ast.Assign) else [s_.target])
-              if isinstance(t, ast.Subscript) and _txt(t.value) == dyn]
-    ok = ok and len(stores) == 3  # row 1 once, row 0 in the objective and after the minimisation - nothing else writes the table
-    R.ob("S-scipy", "%s.minimize:pack = unpack" % SC, ok, (f.file, f.lineno),
-         "the objective and the result must be re-packed with the same expressions: arguments into row 0, selection by (fixed selector, position)")
-    ok = src.like("_fn = self._func_wrapper_unpack_args") and (src.like("opt.minimize(_fn, _vals, ") or src.all_like("_x0 = _vals", "_x0 = self.parameter_values", "opt.minimize(_fn, _x0, "))
-    R.ob("S-scipy", "%s.minimize:objective" % SC, ok, (f.file, f.lineno), "the objective must evaluate the cost at the re-packed full parameter vector, starting from the free values")
-    src2 = eng.csrc(f)  # (own binding: the comprehension has its own variables)
-    ok = src2.all_like("_bnd = None if self._par_bounds is None else [self._par_bounds[_j] for _j, _g in enumerate(self._par_fixed) if not _g]", "_bnd = self._par_bounds", "bounds=_bnd")
-    R.ob("S-scipy", "%s.minimize:bounds" % SC, ok, (f.file, f.lineno), "the bounds handed to scipy must be those of the free parameters, in order")
-    g = eng.cfg(f)
-    opt = [n for n in g.nodes if any(_txt(c.func) == "opt.minimize" for c in _calls_in(n))]
-    ok = len(opt) == 1
-    if ok:
-        ok, _ = g.all_paths_pass(opt[0].id, lambda n: any(_self_call(c, "_func_wrapper_unpack_args") and c.args and _txt(c.args[0]) == "self.parameter_values" for c in _calls_in(n)))
-    R.ob("S-scipy", "%s.minimize:write back" % SC, ok, (f.file, f.lineno), "after the minimisation the final parameter values must be written back to the graph")
-    R.ob("S-scipy", "%s.minimize:all fixed" % SC, "if np.all(self._par_fixed): raise RuntimeError" in src, (f.file, f.lineno), "a fit with all parameters fixed must be refused")
-    for fn, val in (("fix", "True"), ("release", "False")):
-        f = get_func(p, SC, fn)
+    with R.guard("Sscipy"):
+        SC = "MinimizerScipyOptimize"
+        f = get_func(p, SC, "minimize")
         src = _txt(f.node)
-        ok = "self._par_fixed[self._par_names.index(parameter_name)] = %s" % val in src and "self._invalidate_cache()" in src
-        R.ob("S-scipy", "%s.%s" % (SC, fn), ok, (f.file, f.lineno), "%s must set the fixed flag of the named parameter to %s and invalidate cached results" % (fn, val))
-    f = get_func(p, SC, "limit")
-    src = _txt(f.node)
-    IDX = "self._par_names.index(parameter_name)"
-    pats = ["self._par_bounds[%s] = parameter_bounds", "if parameter_bounds[0] is not None and self._par_val[%s] < parameter_bounds[0]: self.set(parameter_name, parameter_bounds[0])",
-            "elif parameter_bounds[1] is not None and self._par_val[%s] > parameter_bounds[1]: self.set(parameter_name, parameter_bounds[1])"]
-    # the index may be held in a local (it is computed before `set` is called) or written out
-    ok = common.like_any(src, ["_id = " + IDX] + [x % "_id" for x in pats], [x % IDX for x in pats])
-    R.ob("S-scipy", "%s.limit" % SC, ok, (f.file, f.lineno), "limit must store the bounds of the named parameter and move a value outside them onto the nearest bound")
-    f = get_func(p, SC, "unlimit")
-    R.ob("S-scipy", "%s.unlimit" % SC, "self._par_bounds[self._par_names.index(parameter_name)] = (None, None)" in _txt(f.node), (f.file, f.lineno), "unlimit must clear the bounds of the named parameter")
-    f = get_func(p, SC, "set")
-    src = _txt(f.node)
-    R.ob("S-scipy", "%s.set" % SC, "self._par_val[self._par_names.index(parameter_name)] = parameter_value" in src and "self.reset()" in src, (f.file, f.lineno),
-         "set must store the value at the index of the named parameter and reset cached results")
-    # float storage: the value store is written element-wise, so it must never be created from user input without a float dtype
-    n_st = 0
-    for f in eng.p.all_functions():
-        if getattr(f, "cls", None) is None or f.cls.name != SC:
-            continue
-        params = {a.arg for a in f.node.args.args}
-        for s in ast.walk(f.node):
-            if isinstance(s, ast.Assign) and any(self_attr(t) == "_par_val" for t in s.targets) and isinstance(s.value, ast.Call) and _txt(s.value.func) in ("np.array", "np.asarray") and s.value.args:
-                a0 = s.value.args[0]
-                if isinstance(a0, ast.Name) and a0.id in params:
-                    n_st += 1
-                    kws = {k.arg: _txt(k.value) for k in s.value.keywords}
-                    R.ob("S-scipy", "%s:float store" % f.qualname, kws.get("dtype") == "float", (f.file, s.lineno),
-                         "the parameter value store is created from caller input without dtype=float: integer start values make set()/fix_parameter(value) truncate")
-    if n_st == 0:
-        raise AnalysisError("scipy adapter: no creation of the parameter value store from caller input found")
-    # stores of (low, high) tuples (entries may be None) must stay lists: a numpy array of them takes the dtype of the first snapshot (integer limits truncate later ones)
-    tuple_fields = set()
-    scls = p.find_class(SC)
-    sfuncs = [f for f in eng.p.all_functions() if getattr(f, "cls", None) is scls]
-    for f in sfuncs:
-        for st in ast.walk(f.node):
-            if isinstance(st, ast.Assign) and isinstance(st.targets[0], ast.Subscript) and self_attr(st.targets[0].value):
-                v = st.value
-                if isinstance(v, ast.Tuple) or (isinstance(v, ast.Name) and "bounds" in v.id):
-                    tuple_fields.add(self_attr(st.targets[0].value))
-    if "_par_bounds" not in tuple_fields:
-        raise AnalysisError("scipy adapter: element stores of parameter bounds not found")
-    for fld in sorted(tuple_fields):
-        bad = []
+        # canonical form; the locals are placeholders (`_pos` position map, `_nfix` running count of fixed parameters, `_vals` free start values, `_dyn` 2-row table,
+        # `_sel` row selector) - bound jointly, so exchanging two of them between statements is not the same thing
+        # (the current values may be held in a local `_pv`: decided on a copy, so that the probe leaves no binding behind)
+        PV = "_pv" if common.Src(str(src)).all_like("_pv = self.parameter_values", "_pos = np.zeros_like(_pv, dtype=int)") else "self.parameter_values"
+        if PV == "_pv":
+            src.all_like("_pv = self.parameter_values", "_pos = np.zeros_like(_pv, dtype=int)")
+        ok = src.like("for _i, _f in enumerate(self._par_fixed): if _f: _pos[_i] = _i _nfix += 1 else: _pos[_i] = _i - _nfix _vals.append(%s[_i])" % PV)
+        R.ob("S-scipy", "%s.minimize:index map" % SC, ok, (f.file, f.lineno),
+             "the position of a fixed parameter is its own index (row of stored values), the position of a free one is its index minus the number of fixed parameters before it "
+             "(row of minimiser arguments), and exactly the free ones are handed to scipy in order")
+        ok = src.all_like("_nfix = 0", "_vals = []", "_sel = np.array(self._par_fixed, dtype=int)", "_dyn = np.zeros(shape=(2,) + %s.shape)" % PV, "_dyn[1] = %s" % PV)
+        R.ob("S-scipy", "%s.minimize:rows" % SC, ok, (f.file, f.lineno), "row 0 holds the minimiser arguments, row 1 the stored (fixed) values; the row selector is 1 exactly for fixed parameters")
+        ok = src.all_like("def _fn(_args): _dyn[0, 0:-_nfix] = _args return self._func_wrapper_unpack_args(_dyn[_sel, _pos])", "_dyn[0, 0:-_nfix] = self._opt_result.x self._par_val = _dyn[_sel, _pos]")
+        dyn = src._binding.get("_dyn")
+        stores = [s_ for s_ in ast.walk(f.node) if isinstance(s_, (ast.Assign, ast.AugAssign)) for t in (s_.targets if isinstance(s_, ast.Assign) else [s_.target])
+                  if isinstance(t, ast.Subscript) and _txt(t.value) == dyn]
+        ok = ok and len(stores) == 3  # row 1 once, row 0 in the objective and after the minimisation - nothing else writes the table
+        R.ob("S-scipy", "%s.minimize:pack = unpack" % SC, ok, (f.file, f.lineno),
+             "the objective and the result must be re-packed with the same expressions: arguments into row 0, selection by (fixed selector, position)")
+        ok = src.like("_fn = self._func_wrapper_unpack_args") and (src.like("opt.minimize(_fn, _vals, ") or src.all_like("_x0 = _vals", "_x0 = self.parameter_values", "opt.minimize(_fn, _x0, "))
+        R.ob("S-scipy", "%s.minimize:objective" % SC, ok, (f.file, f.lineno), "the objective must evaluate the cost at the re-packed full parameter vector, starting from the free values")
+        src2 = eng.csrc(f)  # (own binding: the comprehension has its own variables)
+        ok = src2.all_like("_bnd = None if self._par_bounds is None else [self._par_bounds[_j] for _j, _g in enumerate(self._par_fixed) if not _g]", "_bnd = self._par_bounds", "bounds=_bnd")
+        R.ob("S-scipy", "%s.minimize:bounds" % SC, ok, (f.file, f.lineno), "the bounds handed to scipy must be those of the free parameters, in order")
+        g = eng.cfg(f)
+        opt = [n for n in g.nodes if any(_txt(c.func) == "opt.minimize" for c in _calls_in(n))]
+        ok = len(opt) == 1
+        if ok:
+            ok, _ = g.all_paths_pass(opt[0].id, lambda n: any(_self_call(c, "_func_wrapper_unpack_args") and c.args and _txt(c.args[0]) == "self.parameter_values" for c in _calls_in(n)))
+        R.ob("S-scipy", "%s.minimize:write back" % SC, ok, (f.file, f.lineno), "after the minimisation the final parameter values must be written back to the graph")
+        R.ob("S-scipy", "%s.minimize:all fixed" % SC, "if np.all(self._par_fixed): raise RuntimeError" in src, (f.file, f.lineno), "a fit with all parameters fixed must be refused")
+        for fn, val in (("fix", "True"), ("release", "False")):
+            f = get_func(p, SC, fn)
+            src = _txt(f.node)
+            ok = "self._par_fixed[self._par_names.index(parameter_name)] = %s" % val in src and "self._invalidate_cache()" in src
+            R.ob("S-scipy", "%s.%s" % (SC, fn), ok, (f.file, f.lineno), "%s must set the fixed flag of the named parameter to %s and invalidate cached results" % (fn, val))
+        f = get_func(p, SC, "limit")
+        src = _txt(f.node)
+        IDX = "self._par_names.index(parameter_name)"
+        pats = ["self._par_bounds[%s] = parameter_bounds", "if parameter_bounds[0] is not None and self._par_val[%s] < parameter_bounds[0]: self.set(parameter_name, parameter_bounds[0])",
+                "elif parameter_bounds[1] is not None and self._par_val[%s] > parameter_bounds[1]: self.set(parameter_name, parameter_bounds[1])"]
+        # the index may be held in a local (it is computed before `set` is called) or written out
+        ok = common.like_any(src, ["_id = " + IDX] + [x % "_id" for x in pats], [x % IDX for x in pats])
+        R.ob("S-scipy", "%s.limit" % SC, ok, (f.file, f.lineno), "limit must store the bounds of the named parameter and move a value outside them onto the nearest bound")
+        f = get_func(p, SC, "unlimit")
+        R.ob("S-scipy", "%s.unlimit" % SC, "self._par_bounds[self._par_names.index(parameter_name)] = (None, None)" in _txt(f.node), (f.file, f.lineno), "unlimit must clear the bounds of the named parameter")
+        f = get_func(p, SC, "set")
+        src = _txt(f.node)
+        R.ob("S-scipy", "%s.set" % SC, "self._par_val[self._par_names.index(parameter_name)] = parameter_value" in src and "self.reset()" in src, (f.file, f.lineno),
+             "set must store the value at the index of the named parameter and reset cached results")
+        # float storage: the value store is written element-wise, so it must never be created from user input without a float dtype
+        n_st = 0
+        for f in eng.p.all_functions():
+            if getattr(f, "cls", None) is None or f.cls.name != SC:
+                continue
+            params = {a.arg for a in f.node.args.args}
+            for s in ast.walk(f.node):
+                if isinstance(s, ast.Assign) and any(self_attr(t) == "_par_val" for t in s.targets) and isinstance(s.value, ast.Call) and _txt(s.value.func) in ("np.array", "np.asarray") and s.value.args:
+                    a0 = s.value.args[0]
+                    if isinstance(a0, ast.Name) and a0.id in params:
+                        n_st += 1
+                        kws = {k.arg: _txt(k.value) for k in s.value.keywords}
+                        R.ob("S-scipy", "%s:float store" % f.qualname, kws.get("dtype") == "float", (f.file, s.lineno),
+                             "the parameter value store is created from caller input without dtype=float: integer start values make set()/fix_parameter(value) truncate")
+        if n_st == 0:
+            raise AnalysisError("scipy adapter: no creation of the parameter value store from caller input found")
+        # stores of (low, high) tuples (entries may be None) must stay lists: a numpy array of them takes the dtype of the first snapshot (integer limits truncate later ones)
+        tuple_fields = set()
+        scls = p.find_class(SC)
+        sfuncs = [f for f in eng.p.all_functions() if getattr(f, "cls", None) is scls]
         for f in sfuncs:
-            for c in ast.walk(f.node):
-                if isinstance(c, ast.Call) and _txt(c.func) in ("np.array", "np.asarray") and c.args and self_attr(c.args[0]) == fld:
-                    bad.append("%s:%d" % (f.qualname, c.lineno))
-        R.ob("S-scipy", "%s:%s stays a list" % (SC, fld), not bad, (scls.module.relpath, 0),
-             "the list of (low, high) tuples in %s is converted to a numpy array (%s): with integer limits the array is integer typed, later limits are truncated and (None, None) cannot be stored" % (fld, ", ".join(bad)))
+            for st in ast.walk(f.node):
+                if isinstance(st, ast.Assign) and isinstance(st.targets[0], ast.Subscript) and self_attr(st.targets[0].value):
+                    v = st.value
+                    if isinstance(v, ast.Tuple) or (isinstance(v, ast.Name) and "bounds" in v.id):
+                        tuple_fields.add(self_attr(st.targets[0].value))
+        if "_par_bounds" not in tuple_fields:
+            raise AnalysisError("scipy adapter: element stores of parameter bounds not found")
+        for fld in sorted(tuple_fields):
+            bad = []
+            for f in sfuncs:
+                for c in ast.walk(f.node):
+                    if isinstance(c, ast.Call) and _txt(c.func) in ("np.array", "np.asarray") and c.args and self_attr(c.args[0]) == fld:
+                        bad.append("%s:%d" % (f.qualname, c.lineno))
+            R.ob("S-scipy", "%s:%s stays a list" % (SC, fld), not bad, (scls.module.relpath, 0),
+                 "the list of (low, high) tuples in %s is converted to a numpy array (%s): with integer limits the array is integer typed, later limits are truncated and (None, None) cannot be stored" % (fld, ", ".join(bad)))
